@@ -150,6 +150,9 @@ pub struct FnSpec {
     pub ret_unit: bool,
     /// async under `?Send`: the body keeps a !Send value alive across its await point
     pub hold_rc: bool,
+    /// `-> &str` borrowed from the parameter with this index: the only reference-typed parameter of a fn that has no
+    /// dependency reference, so the elided output lifetime is that parameter's
+    pub ret_borrow: Option<usize>,
 }
 
 /// Parameter names whose alphabetical order differs from their declared order (a bug that sorts or hashes names must show).
@@ -251,7 +254,7 @@ impl FnSpec {
         }
         let g = if generics.is_empty() { String::new() } else { format!("<{}>", generics.join(", ")) };
         let w = if wheres.is_empty() { String::new() } else { format!(" where {}", wheres.join(", ")) };
-        format!("{}{}fn {}{g}({}){}{w}", if self.vis.is_empty() { String::new() } else { format!("{} ", self.vis) }, if self.is_async { "async " } else { "" }, self.name, params.join(", "), if self.ret_unit { "" } else { " -> String" })
+        format!("{}{}fn {}{g}({}){}{w}", if self.vis.is_empty() { String::new() } else { format!("{} ", self.vis) }, if self.is_async { "async " } else { "" }, self.name, params.join(", "), if self.ret_borrow.is_some() { " -> &str" } else if self.ret_unit { "" } else { " -> String" })
     }
 
     pub fn body(&self) -> String {
@@ -288,6 +291,10 @@ impl FnSpec {
         s.push_str(&format!("    let __sum: u32 = {sum};\n"));
         let args = if parts.is_empty() { "String::new()".to_string() } else { format!("[{}].join(\",\")", parts.iter().map(|p| format!("{p}.as_str()")).collect::<Vec<_>>().join(", ")) };
         s.push_str(&format!("    let __r = format!(\"{}|{{}}|{{}}|{{}}\", __id, {args}, __sum);\n", self.tag));
+        if let Some(i) = self.ret_borrow {
+            s.push_str(&format!("    crate::rt::trace(__r.clone());\n    {}\n}}", self.params[i].name));
+            return s;
+        }
         s.push_str(if self.ret_unit { "    crate::rt::trace(__r.clone());\n}" } else { "    crate::rt::trace(__r.clone());\n    __r\n}" });
         s
     }
